@@ -43,6 +43,8 @@ func (ups *Socket) Connect(manager cert.TlsConfig, mustSecure bool) error {
 		if tlsConfig, err = manager.GetTlsConfig(); err != nil {
 			return errors.Wrapf(err, "Could not configure TLS")
 		}
+		// We dial the resolved address: have the certificate checked against the configured host name instead
+		tlsConfig.ServerName = ups.Address.Hostname()
 		a.Scheme = addr.PlusEnd.ReplaceAllString(a.Scheme, "")
 		log.Debugf("Dialing TLS %s", a.String())
 
